@@ -22,6 +22,8 @@ From crates/usvg/src/parser/{converter.rs, switch.rs, shapes.rs, svgtree/mod.rs,
                           (a plain starts_with would be LR_StartsWith)
   filter_facts            parser/filter.rs create_base_filter_func: without an object bbox the closure returns before anything is
                           generated; cache.gen_filter_id() is called once, after the region was computed
+  mask_steps, clip_steps  parser/mask.rs / clippath.rs `convert`: the order of the steps that return, look the definition up in the cache,
+                          generate an id or insert into cache.masks / cache.clip_paths (mask_all insert before the children)
   special_attr_lookups    how the `style`, `id` and `class` XML attributes are looked up (plain-string roxmltree lookup =
                           attribute without a namespace; a local-name comparison would accept foreign-namespace ones)
   style_element_lookup    how resolve_css finds `style` elements
@@ -104,7 +106,7 @@ DEFAULTS = {
     'g_or_use_tags': 'list tag := [T_G; T_Use]',
     'empty_terms': 'list empty_term := [EM_NoChildren; EM_NotGOrUse; EM_NotForce]',
     'required_terms': 'list req_term := [RQ_Opacity; RQ_Clip; RQ_Mask; RQ_Filters; RQ_Transform; RQ_Blend; RQ_Isolate; RQ_GOrUse; RQ_Force]',
-    'group_steps': 'list group_step := [GS_EmptyNoFilterAttr; GS_ObjectBBox; GS_Clip; GS_Mask; GS_Filters; GS_NotRequired; GS_EmptyNoFilters; GS_Boxes]',
+    'group_steps': 'list group_step := [GS_EmptyNoFilterAttr; GS_ObjectBBox; GS_EmptyFiltersFirst; GS_Clip; GS_Mask; GS_Filters; GS_NotRequired; GS_EmptyNoFilters; GS_Boxes]',
     'shape_len_checks': 'list (tag * list geom_attr) := [(T_Rect, [GA_Width; GA_Height]); (T_Circle, [GA_R]); (T_Ellipse, [GA_Rx; GA_Ry])]',
     'poly_min_points': 'N := 2%N',
     'gen_prefixes': 'list string := ["linearGradient"; "radialGradient"; "pattern"; "clipPath"; "mask"; "filter"; "image"]',
@@ -112,6 +114,8 @@ DEFAULTS = {
     'valid_ts_tests': 'list ts_test := [TT_IsValid; TT_DetRelTol]',
     'sys_lang_rules': 'list lang_rule := [LR_Exact; LR_PrefixDash]',
     'filter_facts': 'list filter_fact := [FF_NoBBoxReturnsEarly; FF_GenIdAfterRegionCheck]',
+    'mask_steps': 'list mask_step := [MS_TagCheck; MS_Recursive; MS_CacheLookup; MS_Rect; MS_UnitsBBox; MS_GenId; MS_MaskAllInsert; MS_Linked; MS_ContentUnitsBBox; MS_Children; MS_Insert]',
+    'clip_steps': 'list clip_step := [CS_TagCheck; CS_Recursive; CS_Transform; CS_CacheLookup; CS_UnitsBBox; CS_Linked; CS_GenId; CS_Children; CS_InsertIfChildren]',
     'special_attr_lookups': 'list (special_attr * lookup_kind) := [(SA_Style, LK_NoNamespace); (SA_Id, LK_NoNamespace); (SA_Class, LK_NoNamespace)]',
     'style_element_lookup': 'lookup_kind := LK_SvgNamespace',
     'css_facts': 'list css_fact := [CF_ParentElement; CF_PrevSiblingElement; CF_FirstChildViaPrevSibling; CF_AttrMatchNoNamespace]',
@@ -318,10 +322,11 @@ def extract(api, src, put, group):
                              r"if let Some\(link\) = node\.attribute::<SvgNode>\(AId::Mask\) \{ "
                              r"mask = super::mask::convert\(link, state, object_bbox, cache\); "
                              r"if mask\.is_none\(\) \{ return None; \} \} \}", b, "convert_group: mask")),
-            ('GS_Filters', need(r"let filters = \{ let mut filters = Vec::new\(\); if state\.parent_clip_path\.is_none\(\) \{ "
-                                r"if node\.attribute\(AId::Filter\) == Some\(\"none\"\) \{ \} else if node\.has_attribute\(AId::Filter\) \{ "
-                                r"if let Ok\(f\) = super::filter::convert\(node, state, object_bbox, cache\) \{ filters = f; \} "
-                                r"else \{ return None; \} \} \} filters \};", b, "convert_group: filters")),
+            ('GS_EmptyFiltersFirst', need(r"let mut empty_filters = None; if is_empty \{ let filters = convert_group_filters\(node, state, object_bbox, cache\)\?; "
+                                          r"if filters\.is_empty\(\) \{ return None; \} empty_filters = Some\(filters\); \}", b,
+                                          "convert_group: an empty element resolves its filters first (dd154cd)")),
+            ('GS_Filters', need(r"let filters = match empty_filters \{ Some\(filters\) => filters, "
+                                r"None => convert_group_filters\(node, state, object_bbox, cache\)\?, \};", b, "convert_group: filters")),
             ('GS_NotRequired', need(r"if !required \{ parent\.children\.append\(&mut g\.children\); return None; \}", b,
                                     "convert_group: not required -> children go to the parent")),
             ('GS_EmptyNoFilters', need(r"if is_empty && filters\.is_empty\(\) \{ return None; \}", b,
@@ -332,8 +337,14 @@ def extract(api, src, put, group):
         if order[0] != 'GS_Collect':
             raise Miss("convert_group: something exits before the children are collected")
         put('group_steps', 'list group_step', "%s" % coq_list(order[1:]))
-        if len(re.findall(r"\breturn\b", b)) != 6:
-            raise Miss("convert_group: expected exactly 6 return statements, found %d" % len(re.findall(r"\breturn\b", b)))
+        if len(re.findall(r"\breturn\b", b)) != 6 or len(re.findall(r"\)\?", b)) != 2:
+            raise Miss("convert_group: expected exactly 6 return statements and 2 `?` exits, found %d / %d"
+                       % (len(re.findall(r"\breturn\b", b)), len(re.findall(r"\)\?", b))))
+        fb = body_of(api, conv, 'convert_group_filters')
+        need(r"^\{ let mut filters = Vec::new\(\); if state\.parent_clip_path\.is_none\(\) \{ "
+             r"if node\.attribute\(AId::Filter\) == Some\(\"none\"\) \{ \} else if node\.has_attribute\(AId::Filter\) \{ "
+             r"if let Ok\(f\) = super::filter::convert\(node, state, object_bbox, cache\) \{ filters = f; \} "
+             r"else \{ return None; \} \} \} Some\(filters\) \}$", fb, "convert_group_filters (Model/Converter.v group_filters)")
         need(r"let abs_transform = parent\.abs_transform\.pre_concat\(transform\);", b, "convert_group: abs_transform")
 
     group(sec_8)
@@ -495,6 +506,62 @@ def extract(api, src, put, group):
         if len(facts) != 2:
             raise Miss("filter.rs create_base_filter_func: the filter id is generated before the bounding box / region checks (%s)" % ', '.join(facts))
     group(sec_filter_func)
+
+    def sec_mask_clip():  # mask.rs / clippath.rs `convert`: order of the steps that return, read or write the cache
+        mk = api.rd('crates/usvg/src/parser/mask.rs')
+        b = body_of(api, mk, 'convert')
+        ms = [
+            ('MS_TagCheck', need(r"if node\.tag_name\(\) != Some\(EId::Mask\) \{ return None; \}", b, "mask::convert: tag check")),
+            ('MS_Recursive', need(r"if state\.parent_defs\.contains\(&node\) \{ log::warn!\([^;]*\); return None; \}", b, "mask::convert: recursion check")),
+            ('MS_CacheLookup', need(r"let cacheable = is_cacheable\(node\); if cacheable \{ if let Some\(mask\) = cache\.masks\.get\(node\.element_id\(\)\) "
+                                    r"\{ return Some\(mask\.clone\(\)\); \} \}", b, "mask::convert: cache lookup")),
+            ('MS_Rect', need(r"let mut rect = rect\.log_none\([^;]*\)\?;", b, "mask::convert: rect")),
+            ('MS_UnitsBBox', need(r"let mut mask_all = false; if units == Units::ObjectBoundingBox \{ if let Some\(bbox\) = object_bbox \{ "
+                                  r"rect = crate::checked_bbox_transform\(rect, bbox\)\.log_none\([^;]*\)\?; \} else \{ mask_all = true; \} \}", b,
+                                  "mask::convert: objectBoundingBox units / mask_all")),
+            ('MS_GenId', need(r"let mut id = NonEmptyString::new\(node\.element_id\(\)\.to_string\(\)\)\?; "
+                              r"if !cacheable && cache\.masks\.contains_key\(id\.get\(\)\) \{ id = cache\.gen_mask_id\(\); \}", b, "mask::convert: generated id")),
+            ('MS_MaskAllInsert', need(r"if mask_all \{ let mask = Arc::new\(Mask \{[^}]*root: Group::empty\(\), \}\); "
+                                      r"cache\.masks\.insert\(id_copy, mask\.clone\(\)\); return Some\(mask\); \}", b, "mask::convert: mask_all insert")),
+            ('MS_Linked', need(r"if let Some\(link\) = node\.attribute::<SvgNode>\(AId::Mask\) \{ mask = convert\(link, state, object_bbox, cache\); "
+                               r"if mask\.is_none\(\) \{ return None; \} \}", b, "mask::convert: linked mask")),
+            ('MS_ContentUnitsBBox', need(r"if content_units == Units::ObjectBoundingBox \{ let object_bbox = match object_bbox \{ Some\(v\) => v, "
+                                         r"None => \{ log::warn!\([^;]*\); return None; \} \};", b, "mask::convert: content units")),
+            ('MS_Children', need(r"converter::convert_children\(node, state, cache, real_root\); if !real_root\.has_children\(\) \{ return None; \}", b,
+                                 "mask::convert: children")),
+            ('MS_Insert', need(r"let mask = Arc::new\(mask\); cache\.masks\.insert\(id_copy, mask\.clone\(\)\); Some\(mask\) \}$", b, "mask::convert: insert")),
+        ]
+        put('mask_steps', 'list mask_step', coq_list(ordered(ms, 'mask::convert')))
+        if len(re.findall(r"cache\.masks\.insert", b)) != 2 or len(re.findall(r"gen_mask_id", b)) != 1:
+            raise Miss("mask::convert: expected 2 cache.masks.insert sites and 1 gen_mask_id site")
+        need(r"chain\.iter\(\)\.all\(\|n\| \{ n\.attribute\(AId::MaskUnits\) == Some\(Units::UserSpaceOnUse\) && "
+             r"n\.attribute\(AId::MaskContentUnits\) != Some\(Units::ObjectBoundingBox\) \}\)", body_of(api, mk, 'is_cacheable'), "mask.rs is_cacheable")
+        cp = api.rd('crates/usvg/src/parser/clippath.rs')
+        b = body_of(api, cp, 'convert')
+        cs = [
+            ('CS_TagCheck', need(r"if node\.tag_name\(\) != Some\(EId::ClipPath\) \{ return None; \}", b, "clippath::convert: tag check")),
+            ('CS_Recursive', need(r"if state\.parent_defs\.contains\(&node\) \{ log::warn!\([^;]*\); return None; \}", b, "clippath::convert: recursion check")),
+            ('CS_Transform', need(r"let mut transform = resolve_clip_path_transform\(node, state\)\?;", b, "clippath::convert: transform")),
+            ('CS_CacheLookup', need(r"let cacheable = is_cacheable\(node\); if cacheable \{ if let Some\(clip\) = cache\.clip_paths\.get\(node\.element_id\(\)\) "
+                                    r"\{ return Some\(clip\.clone\(\)\); \} \}", b, "clippath::convert: cache lookup")),
+            ('CS_UnitsBBox', need(r"if units == Units::ObjectBoundingBox \{ let object_bbox = match object_bbox \{ Some\(v\) => v, "
+                                  r"None => \{ log::warn!\([^;]*\); return None; \} \};", b, "clippath::convert: objectBoundingBox units")),
+            ('CS_Linked', need(r"if let Some\(link\) = node\.attribute::<SvgNode>\(AId::ClipPath\) \{ clip_path = convert\(link, &clip_state, object_bbox, cache\); "
+                               r"if clip_path\.is_none\(\) \{ return None; \} \}", b, "clippath::convert: linked clip path")),
+            ('CS_GenId', need(r"let mut id = NonEmptyString::new\(node\.element_id\(\)\.to_string\(\)\)\?; "
+                              r"if !cacheable && cache\.clip_paths\.contains_key\(id\.get\(\)\) \{ id = cache\.gen_clip_path_id\(\); \}", b,
+                              "clippath::convert: generated id")),
+            ('CS_Children', need(r"converter::convert_clip_path_elements\(node, &clip_state, cache, &mut clip\.root\);", b, "clippath::convert: children")),
+            ('CS_InsertIfChildren', need(r"if clip\.root\.has_children\(\) \{ clip\.root\.calculate_bounding_boxes\(\); let clip = Arc::new\(clip\); "
+                                         r"cache\.clip_paths\.insert\(id_copy, clip\.clone\(\)\); Some\(clip\) \} else \{ None \} \}$", b,
+                                         "clippath::convert: insert when it has children")),
+        ]
+        put('clip_steps', 'list clip_step', coq_list(ordered(cs, 'clippath::convert')))
+        if len(re.findall(r"cache\.clip_paths\.insert", b)) != 1 or len(re.findall(r"gen_clip_path_id", b)) != 1:
+            raise Miss("clippath::convert: expected 1 cache.clip_paths.insert site and 1 gen_clip_path_id site")
+        need(r"chain \.iter\(\) \.all\(\|n\| n\.attribute\(AId::ClipPathUnits\) != Some\(Units::ObjectBoundingBox\)\)", body_of(api, cp, 'is_cacheable'),
+             "clippath.rs is_cacheable")
+    group(sec_mask_clip)
 
     def sec_sys_lang():  # is_valid_sys_lang
         b = body_of(api, sw, 'is_valid_sys_lang')
